@@ -2,12 +2,12 @@ package main
 
 import (
 	"fmt"
-	"os"
-	"strconv"
 	"go/ast"
 	"go/token"
 	"go/types"
+	"os"
 	"sort"
+	"strconv"
 	"strings"
 
 	"golang.org/x/tools/go/ssa"
@@ -18,6 +18,7 @@ type retPoint struct {
 	st    *State
 	vals  []Term
 	pos   string
+	blk   *ssa.BasicBlock
 }
 
 type loopInfo struct {
@@ -139,6 +140,16 @@ func (fr *Frame) analyzeLoops() {
 			li.spec = fr.contract.Loops[i]
 		}
 		fr.loopList = append(fr.loopList, li)
+		if os.Getenv("GOWP_DEBUG_LOOPS") != "" && fr.parent == nil {
+			pos := ""
+			for _, ins := range h.Instrs {
+				if ins.Pos().IsValid() {
+					pos = fr.g.W.fset.Position(ins.Pos()).String()
+					break
+				}
+			}
+			fmt.Fprintf(os.Stderr, "loop %d of %s: header block %d (%s) %s\n", i, fr.fn.Name(), h.Index, h.Comment, pos)
+		}
 	}
 	// topological order ignoring back edges (reverse postorder)
 	seen := map[*ssa.BasicBlock]bool{}
@@ -485,19 +496,10 @@ func (fr *Frame) execBlock(b *ssa.BasicBlock, st0 *State, reach0 string) {
 			fr.edgeCond[b][i] = "true"
 		}
 	}
-	// back edges out of this block
-	for i, s := range b.Succs {
-		if isBackEdge(b, s) {
-			fr.backEdge(fr.loops[s], b, and(cur.reach, fr.edgeCond[b][i]), cur.st)
-		}
-	}
 	// exit edges of loops: anchors "after loop N" (clauses about what a loop has established when it is left,
 	// by its condition or by a break)
 	if fr.contract != nil && len(fr.contract.Asserts) > 0 {
 		for i, s := range b.Succs {
-			if isBackEdge(b, s) {
-				continue
-			}
 			for _, l := range fr.loopList {
 				if l.body[b] && !l.body[s] {
 					ec := and(cur.reach, fr.edgeCond[b][i])
@@ -505,9 +507,18 @@ func (fr *Frame) execBlock(b *ssa.BasicBlock, st0 *State, reach0 string) {
 						continue
 					}
 					fr.curBlock = b
+					if os.Getenv("GOWP_DEBUG_LOOPS") != "" {
+						fmt.Fprintf(os.Stderr, "exit edge loop %d: b%d -> b%d\n", l.ord, b.Index, s.Index)
+					}
 					fr.anchor(fmt.Sprintf("after loop %d", l.ord), &blockCtx{st: cur.st.clone(), reach: ec}, nil)
 				}
 			}
+		}
+	}
+	// back edges out of this block
+	for i, s := range b.Succs {
+		if isBackEdge(b, s) {
+			fr.backEdge(fr.loops[s], b, and(cur.reach, fr.edgeCond[b][i]), cur.st)
 		}
 	}
 }
@@ -959,9 +970,9 @@ func (fr *Frame) execBlockDry(b *ssa.BasicBlock, li *loopInfo) {
 type writeLog struct {
 	snapAlloc int
 	snapBase  string
-	snapN int
-	recs  []writeRec
-	seen  map[string]bool
+	snapN     int
+	recs      []writeRec
+	seen      map[string]bool
 }
 
 // usesDryNames reports whether term mentions a name introduced after the snapshot.
@@ -1280,6 +1291,10 @@ func (g *Gen) VerifyFunction(fn *ssa.Function) (err error) {
 	for ri, r := range fr.rets {
 		env := fr.baseEnv(r.st)
 		env.old = fr.entrySt
+		if rb := r.blk; rb != nil {
+			// source-level locals are in scope at a return (ghostret, ensures)
+			env.resolve = func(n string, st2 *State) (Term, Ty, bool) { return fr.resolveLocalAt(n, rb, st2) }
+		}
 		for i, n := range names {
 			env.vars[n] = Binding{r.vals[i], goTy(fn.Signature.Results().At(i).Type())}
 		}
